@@ -300,7 +300,9 @@ struct Lib {
       rep.key = rep.cls;
       return rep;
     }
-    long budget = 50 * ref.res.steps * std::max(1, plan.N) + 1000;
+    // a stalled evaluation lasts slow_s / 50 ms ticks; tasks that wait for it by polling (yield / sleep loops are legal)
+    // spend a few steps per tick, so the budget grows with the injected stall
+    long budget = 50 * ref.res.steps * std::max(1, plan.N) + 1000 + (plan.slow_s > 0 ? (long)plan.slow_s * 20 * 6 * std::max(1, plan.N) : 0);
     History h = run_once(plan, plan.N, spec, budget, false);
     rep.absorb(h.res);
     rep.decisions = h.res.decisions;
